@@ -378,7 +378,13 @@ func (ps *parser) postfix(e Expr) Expr {
 			if !ps.isOp(":") {
 				lo = ps.expr(0)
 			}
-			if ps.isOp(":") {
+			if ps.isOp(":") && lo != nil && ps.toks[ps.p+1].kind == "op" && ps.toks[ps.p+1].text == "=" {
+				// m[k := v]: functional update of a ghost map
+				ps.p += 2
+				v := ps.expr(0)
+				ps.expect("]")
+				e = &ECall{"$update", []Expr{e, lo, v}}
+			} else if ps.isOp(":") {
 				ps.p++
 				if !ps.isOp("]") {
 					hi = ps.expr(0)
